@@ -114,6 +114,70 @@ def unit_expr_class(clsname, field, props=('C03', 'C10')):
     return Unit('expr/%s/%s' % (clsname, field), run, funcs=[OP + clsname + '._call'], config={'class': clsname, 'field': field})
 
 
+def simplex_case_check(case):
+    """native check of one proj_simplex case; returns None or the description of the disagreement"""
+    import os
+    import sys
+    root = os.environ.get('PYVC_REPO', '/repo')
+    if root not in sys.path:
+        sys.path.insert(0, root)
+    import numpy as np
+    import odl
+    from odl.solvers.nonsmooth.proximal_operators import proj_simplex
+    n, d = case['n'], case['diameter']
+    a = np.array(case['x'], dtype=float)
+    space = odl.rn(n) if case['space'] == 'NumpyTensorSpace' else odl.uniform_discr(0, 2, n)
+    try:
+        x = space.element(a.copy())        # element(arr) wraps without copy: keep `a` as the independent record
+        r1 = proj_simplex(x, d)
+        same_x = np.array_equal(x.asarray(), a)
+        out = space.element(np.full(n, 7.5))
+        r2 = proj_simplex(x, d, out)
+        xa = space.element(a.copy())
+        r3 = proj_simplex(xa, d, xa)
+        P = odl.solvers.IndicatorSimplex(space, diameter=d).proximal(0.7)
+        x4 = space.element(a.copy())
+        r4 = P(x4)
+        v = r1.asarray()
+        if not same_x or not np.array_equal(x.asarray(), a):
+            return 'proj_simplex modified its input: %r, was %r' % (x.asarray(), a)
+        if not np.array_equal(x4.asarray(), a):
+            return 'IndicatorSimplex.proximal modified its input: %r, was %r' % (x4.asarray(), a)
+        if r2 is not out or r3 is not xa:
+            return 'out is not returned'
+        if not (np.allclose(r2.asarray(), v) and np.allclose(r3.asarray(), v) and np.allclose(r4.asarray(), v)):
+            return 'out-of-place %r, in-place %r, aliased %r, IndicatorSimplex.proximal %r' % (v, r2.asarray(), r3.asarray(), r4.asarray())
+        if np.any(v < -1e-12) or abs(v.sum() - d) > 1e-9:
+            return 'not on the simplex: %r (sum %r, diameter %r)' % (v, v.sum(), d)
+        pos = v > 1e-12
+        tau = (a[pos] - v[pos]).mean()
+        if not np.allclose(v, np.maximum(a - tau, 0), atol=1e-9):
+            return 'not max(x - tau, 0): %r for x = %r' % (v, a)
+    except Exception as e:
+        return 'raised %s: %s' % (type(e).__name__, e)
+    return None
+
+
+def unit_simplex_bounded():
+    """BOUNDED cross-check (never counted as proved) of the ASSUMED contract of proj_simplex (sort / cumsum / argwhere code outside the subset): on random inputs of
+    sizes 1..9 (ties included) the input is bit-for-bit unchanged, `out` is returned, out-of-place == in-place == aliased (out=x), and the result is the Euclidean
+    projection onto the simplex (non-negative, sums to the diameter, equals max(x - tau, 0) for one threshold tau); the same for IndicatorSimplex.proximal."""
+    def run(ctx):
+        import numpy as np
+        rng = np.random.default_rng(17)
+        for n in range(1, 10):
+            for trial in range(6):
+                for spname in ('NumpyTensorSpace', 'DiscretizedSpace'):
+                    a = rng.standard_normal(n) * 2
+                    if trial == 1:
+                        a = np.round(a)            # ties
+                    if trial == 2:
+                        a = np.sort(a)[::-1].copy()
+                    case = {'n': n, 'space': spname, 'x': a.tolist(), 'diameter': float(rng.uniform(0.3, 3.0))}
+                    bad = simplex_case_check(case)
+                    ctx.bounded('proj_simplex contract (frame, out, aliasing, projection)', not bad, case, detail=bad)
+    return Unit('simplex/contract', run, funcs=[makers.PROX + 'proj_simplex'], kind='B', bounded_in='sizes 1..9, 6 random inputs each, rn and uniform_discr')
+
 def unit_canary():
     """must-fail: a proximal that reads x after overwriting it through out (soft threshold written as
     out = x/max(|x|/t,1); out = x - out) must be refuted under aliasing"""
@@ -151,10 +215,14 @@ def units(tier, seed):
         from contracts.props import C04
         for c in sorted(C04.VARIANTS):
             us.append(unit_expr_class(c, field))
+    us.append(unit_simplex_bounded())
     us.append(unit_canary())
     return us
 
 
 def replay(ob):
+    if ob.get('unit', '').startswith('simplex/'):
+        bad = simplex_case_check(ob.get('model') or (ob.get('replay') or {}).get('case'))
+        return {'reproduced': bool(bad), 'detail': bad or 'holds natively', 'input': ob.get('model')}
     from contracts import replay_forms
     return replay_forms.replay(ob)
